@@ -14,7 +14,7 @@ cd $V
 for p in ${@:-C01 C02 C03 C04 C05 C06 C07 C08 C09 C10 C11 C12 C13 C14 C15 C16}; do
   LLVM_PROFILE_FILE="$C/prof/$p-%p-%8m.profraw" JV_BINARY_OVERRIDE=$C/target/debug/jbkverif ./check run $p --tier quick 2>&1 | tail -1
 done
-$LLVM/llvm-profdata merge -sparse $C/prof/*.profraw -o $C/all.profdata
+find $C/prof -size 0 -delete; ls $C/prof/*.profraw > $C/list.txt; $LLVM/llvm-profdata merge -failure-mode=warn -sparse -f $C/list.txt -o $C/all.profdata 2>/dev/null; rm -rf $C/prof
 $LLVM/llvm-cov report $C/target/debug/jbkverif -instr-profile=$C/all.profdata --ignore-filename-regex='(registry|rustc|harness)' > $C/report.txt 2>/dev/null || true
 $LLVM/llvm-cov export $C/target/debug/jbkverif -instr-profile=$C/all.profdata --ignore-filename-regex='(registry|rustc|harness)' -format=lcov > $C/lcov.info 2>/dev/null || true
 echo "report: $C/report.txt  lcov: $C/lcov.info"
